@@ -171,12 +171,81 @@ def check_table_roles(cx: Cx, ob: Ob, tables_wanted: list[str]) -> None:
                             detail=f"{table}:conditional:{f}",
                         )
                         continue
+                    flags_ = [x[2] for x in subterms(c[0]) if op(x) == "attr" and op(x[1]) == "param" and isinstance(x[2], str) and x[2].startswith("_")] if isinstance(c[0], tuple) else []
+                    if flags_:
+                        verdict = suspension_protocol(cx, ob, flags_[0], table)
+                        if verdict == "ok":
+                            ob.site(good[0].site, f"`{f}` enters `{table}` unless maintenance is suspended through self.{flags_[0]}; every function that suspends it rebuilds the table and lifts the suspension")
+                            continue
+                        if verdict == "undecided":
+                            ob.undecide(f"maintenance of `{table}` is suspended while self.{flags_[0]} is set: that whoever sets it rebuilds the table and resets the flag on every way out was not established")
+                            continue
+                        if verdict == "violated":
+                            continue  # reported at the function that sets the flag
                     ob.violate(
                         good[0].fn,
                         good[0].site,
                         f"`{f}` enters `{table}` only under condition `{'' if c[1] else 'not '}{show(c[0])}`; falsy values such as the empty string are legitimate",
                         detail=f"{table}:conditional:{f}",
                     )
+
+
+def suspension_protocol(cx: Cx, ob: Ob, flag: str, table: str) -> str:
+    """``_index`` leaves ``table`` alone while ``self.<flag>`` is set (a bulk operation that rebuilds the table once at
+    its end).  PAIRING: the flag has a constant class-level default; every function that sets it to another value
+    binds ``<obj>.<table>`` anew afterwards and sets the flag back to the default before every normal way out.
+    'ok' / 'undecided' / 'violated' (reported here, at the setter)."""
+    import ast as _ast
+
+    ci = cx.model.cls(CONV, ob.id)
+    dflt = ci.assigns.get(flag) or (ci.fields.get(flag) or (None, None))[1]
+    if not isinstance(dflt, _ast.Constant):
+        return "undecided"
+    setters = []
+    for fn in cx.model.functions.values():
+        if any(isinstance(n, _ast.Attribute) and n.attr == flag and isinstance(n.ctx, _ast.Store) for n in _ast.walk(fn.node)):
+            setters.append(fn)
+    if not setters:
+        return "undecided"
+    verdict = "ok"
+    for fn in setters:
+        s = cx.summary(fn, ob.id, full=True)
+        for p in s.paths:
+            if p.out is not None and p.out[0] == "raise":
+                continue
+            state = None  # None: default; ("set", obj): suspended; rebuilt?
+            rebuilt = False
+            flat = []
+
+            def walk(events):
+                for e in events:
+                    flat.append(e)
+                    # loop bodies in between do not change the flag (checked below by scanning them too)
+                    for q in (e.body or ()):
+                        walk(q.events)
+
+            walk(p.events)
+            for e in flat:
+                if e.kind == "store" and op(e.a) == "attr" and e.a[2] == flag:
+                    if is_const(e.b, dflt.value):
+                        if state is not None and not rebuilt:
+                            ob.violate(fn.qualname, where(fn, e.line), f"{fn.name} lifts the suspension of `{table}` maintenance (self.{flag}) without having rebuilt `{table}`: what _index skipped in between is missing from it", detail=f"suspension-without-rebuild:{flag}")
+                            verdict = "violated"
+                        state = None
+                    else:
+                        state, rebuilt = ("set", e.a[1]), False
+                elif e.kind == "store" and op(e.a) == "attr" and e.a[2] == table and state is not None and e.a[1] == state[1]:
+                    rebuilt = True
+            if state is not None:
+                ob.violate(
+                    fn.qualname,
+                    fn.where,
+                    f"{fn.name} sets {show(state[1])[:30]}.{flag} (which makes _index leave `{table}` alone) and returns without setting it back: every later add_record / add_prefix on that converter updates the records and the other tables but not `{table}` - compress / parse_uri / is_uri miss what was added",
+                    witness="c = chain([a, b]); c.add_prefix('x', 'http://x/'): c.expand('x:1') works, c.compress('http://x/1') is None",
+                    detail=f"suspension-not-lifted:{flag}",
+                )
+                verdict = "violated"
+    return verdict
 
 
 def _restricting(conds: tuple, table: str) -> bool:
